@@ -1002,6 +1002,28 @@ def _sct_cases(rng):
     lst([big] * 20); lst([A, big, A])
     return out
 
+def _server_hello_versions(tier, rng):
+    """every 16-bit legacy version through both ServerHello dispatchers: 0x0300 (no extensions), 0x0301-0x0303, 0x7f12
+    (draft-18 form, message parser only) decode; every other version is rejected with Error(Tag) at the start"""
+    from vlib import Case
+    out = []
+    R = bytes(range(32)).hex()
+    for v in range(65536):
+        if tier != "thorough" and not (0x02f0 <= v <= 0x0410 or 0x7f00 <= v <= 0x7f30 or v % 64 == 5 or v >= 0xfe00 or v < 0x40): continue
+        body = "%04x%s00130100" % (v, R)                  # empty session id, cipher 0x1301, compression 0
+        n = len(body) // 2
+        if v in (0x0300, 0x0301, 0x0302, 0x0303):
+            exp = "(ok @_+0 (ServerHello %d #2:%s None 4865 0 None))" % (v, R)
+            out.append(Case("parse_tls_handshake_server_hello " + body, exp, "shversions"))
+            out.append(Case("parse_tls_handshake_msg_server_hello " + body, exp, "shversions"))
+        elif v == 0x7f12:
+            out.append(Case("parse_tls_handshake_server_hello " + body, "(err Tag @0+%d)" % n, "shversions"))
+        else:
+            out.append(Case("parse_tls_handshake_server_hello " + body, "(err Tag @0+%d)" % n, "shversions"))
+            out.append(Case("parse_tls_handshake_msg_server_hello " + body, "(err Tag @0+%d)" % n, "shversions"))
+            out.append(Case("parse_tls_message_handshake 02%06x%s" % (n, body), "(err Tag @4+%d)" % n, "shversions"))
+    return out
+
 def _kx_sweeps(tier, rng):
     """all 65536 named groups and all 256 curve types (the property's own quantifier), with spec expectations"""
     from vlib import Case
@@ -1062,7 +1084,7 @@ def _enum_sweeps(tier, rng):
             "(ok @_+0 (Handshake (ClientHello 771 #6:%s None [4865] [%d] None)))" % (R, t))
         add("parse_tls_message_handshake 02000026" + "0303" + R + "00" + "1301" + "%02x" % t,
             "(ok @_+0 (Handshake (ServerHello 771 #6:%s None 4865 %d None)))" % (R, t))
-        add("parse_tls_message_handshake 0d00000801%02x0002040300 00".replace(" ", "") % t,
+        add("parse_tls_message_handshake 0d00000801%02x000204030000" % t,
             "(ok @_+0 (Handshake (CertificateRequest [%d] (Some [1027]) [])))" % t)
         add("parse_tls_message_handshake 16000005%02x000001aa" % t, "(ok @_+0 (Handshake (CertificateStatus %d #8:aa)))" % t)
         add("parse_tls_message_handshake 18000001%02x" % t, "(ok @_+0 (Handshake (KeyUpdate %d)))" % t)
@@ -1090,7 +1112,7 @@ def _enum_sweeps(tier, rng):
             "(ok @_+0 (Handshake (ClientHello 771 #6:%s None [%d 4865] [0] None)))" % (R, v))
         add("parse_tls_message_handshake 02000026" + "0303" + R + "00" + "%04x" % v + "00",
             "(ok @_+0 (Handshake (ServerHello 771 #6:%s None %d 0 None)))" % (R, v))
-        add("parse_tls_message_handshake 0d0000080140 0002%04x0000".replace(" ", "") % v,
+        add("parse_tls_message_handshake 0d00000801400002%04x0000" % v,
             "(ok @_+0 (Handshake (CertificateRequest [64] (Some [%d]) [])))" % v)
         add("parse_tls_extension 000a00060004%04x0017" % v, "(ok @_+0 (EllipticCurves [%d 23]))" % v)
         add("parse_tls_extension 000d00040002%04x" % v, "(ok @_+0 (SignatureAlgorithms [%d]))" % v)
@@ -1323,6 +1345,7 @@ def _stress_cases(tier, rng):
 def extra_cases(pid, tier, seed, rng):
     if pid == "C15": return _hello_cases(tier, seed, rng)
     if pid == "C03": return _record_extremes(rng)
+    if pid == "C04": return _server_hello_versions(tier, rng)
     if pid == "C16": return _record_extremes(rng, entries=("tls_parser_many",)) + _dtls_extremes(rng, many=True)
     if pid == "C10": return _dtls_extremes(rng) + _dtls_extremes(rng, many=True)
     if pid == "C18": return _nt_cases(tier, rng) + _cipher_cases(tier, rng) + _state_cells(tier, rng) + (lambda hs: hs[:1500] + [c for c in hs[1500:] if c.origin in ("stress", "oversize")])(_defrag_histories(tier, seed, rng))
